@@ -84,6 +84,54 @@ theorem filterMap_erase_none {β} (L : Nat → Option β) : ∀ (l : List Nat) (
     · rw [List.erase_cons_tail (by simpa using hxf)]
       simp [List.filterMap_cons, filterMap_erase_none L xs f h]
 
+theorem filter_erase_false (p : Nat → Bool) : ∀ (l : List Nat) (f : Nat), p f = false →
+    (l.erase f).filter p = l.filter p
+  | [], _, _ => rfl
+  | x :: xs, f, h => by
+    by_cases hx : x = f
+    · subst hx; simp [List.filter_cons, h]
+    · rw [List.erase_cons_tail (by simpa using hx)]
+      simp [List.filter_cons, filter_erase_false p xs f h]
+
+theorem filter_erase_true (p : Nat → Bool) : ∀ (l : List Nat) (f : Nat), p f = true →
+    (l.erase f).filter p = (l.filter p).erase f
+  | [], _, _ => rfl
+  | x :: xs, f, h => by
+    by_cases hx : x = f
+    · subst hx; simp [List.filter_cons, h]
+    · rw [List.erase_cons_tail (by simpa using hx)]
+      have ih := filter_erase_true p xs f h
+      by_cases hp : p x = true
+      · have hxf : (x == f) = false := by simpa using hx
+        simp [List.filter_cons, hp, List.erase_cons_tail, hxf, ih]
+      · simp [List.filter_cons, hp, ih]
+
+/-- dropping elements that contribute nothing does not change a sum -/
+theorem sum_map_filter_zero (g : Nat → Nat) (p : Nat → Bool) (hz : ∀ x, p x = false → g x = 0) :
+    ∀ l : List Nat, ((l.filter p).map g).sum = (l.map g).sum
+  | [] => rfl
+  | x :: xs => by
+    have ih := sum_map_filter_zero g p hz xs
+    by_cases hp : p x = true
+    · simp [List.filter_cons, hp, ih]
+    · have : g x = 0 := hz x (by simpa using hp)
+      simp [List.filter_cons, hp, ih, this]
+
+theorem sum_map_zero (g : Nat → Nat) : ∀ l : List Nat, (∀ x ∈ l, g x = 0) → (l.map g).sum = 0
+  | [], _ => rfl
+  | x :: xs, h => by
+    simp [h x (List.mem_cons_self ..), sum_map_zero g xs (fun y hy => h y (List.mem_cons_of_mem _ hy))]
+
+theorem filterMap_filter_none {β} (L : Nat → Option β) (p : Nat → Bool)
+    (hz : ∀ x, p x = false → L x = none) : ∀ l : List Nat, (l.filter p).filterMap L = l.filterMap L
+  | [] => rfl
+  | x :: xs => by
+    have ih := filterMap_filter_none L p hz xs
+    by_cases hp : p x = true
+    · simp [List.filter_cons, hp, List.filterMap_cons, ih]
+    · have : L x = none := hz x (by simpa using hp)
+      simp [List.filter_cons, hp, List.filterMap_cons, ih, this]
+
 theorem nodup_erase {l : List Nat} (f : Nat) (h : l.Nodup) : (l.erase f).Nodup :=
   List.Nodup.sublist List.erase_sublist h
 
